@@ -17,14 +17,13 @@ CONSTANTS SelMod, SelRes     \* which derivations are edited: a structural selec
 VARIABLE edit
 evars == <<nvars, edit>>
 
-Kinds == << L("(", 1), L(")", 1), L("{", 1), L("}", 1), L("[", 1), L("]", 1), L(";", 1), L(",", 1), L("*", 1), L(" = ", 3),
-            L("if ", 3), L("else", 4), L("while ", 6), L("return ", 7), L("int ", 4), L("#", 1), L("\"", 1), L("'", 1),
-            L("/*", 2), L("//", 2), L("\\", 1), V1, N1, L("typedef ", 8), L("struct ", 7), L("?", 1), L(":", 1), L("->", 2) >>
+Kinds == << L("(", 1), L(")", 1), L("{", 1), L("}", 1), L("[", 1), L(";", 1), L(",", 1), L("*", 1), L(" = ", 3),
+            L("if ", 3), L("else", 4), L("return ", 7), L("int ", 4), L("#", 1), L("\"", 1), L("/*", 2), V1, N1 >>
 
 Count(k) == Cardinality({i \in DOMAIN prog : prog[i].k = k})
 Selected == (Count("ctrl") * 7 + Count("stmt") * 3 + Count("decl") * 5 + Len(prog)) % SelMod = SelRes
 
-Sites == {<<i, j>> \in (DOMAIN prog) \X (1..12) : j <= Len(prog[i].items)}
+Sites == {<<i, j>> \in (DOMAIN prog) \X (1..9) : j <= Len(prog[i].items)}
 Rp(i, its) == [prog EXCEPT ![i].items = its]
 Ready == IF WithViol THEN phase = "violated" ELSE phase = "done"
 
